@@ -88,6 +88,12 @@ def run(ctx, ck) -> None:
             _apply_schema(ck, cls, fn, schema)
         else:
             ck.bad('O2', cls.node, f'{cname} no longer defines in_structure')
+    # the structures of the block operators are also decided by evaluation (shared with C10.B2); where it decides, the written
+    # form of their accessors is kept only where it confirms
+    from . import c10 as _c10
+
+    if _c10.block_structures_by_evaluation(ctx, ck, 'O2'):
+        ck.obs[:] = [o for o in ck.obs if not (o.rule.endswith('O2') and o.status != 'ok' and 'Block' in o.construct and 'by evaluation' not in o.construct)]
 
     # ------------------------------------------------------------------ O3 dtype discipline
     sites: dict[int, tuple] = {}
